@@ -91,10 +91,12 @@ struct World {
   void end();                                                                 // coap_cleanup, detach hooks
   int add_node(coap_context_t *ctx);     // returns node id; ctx may be nullptr for raw-peer nodes
   void set_ctx(int node, coap_context_t *ctx) { nodes[node].ctx = ctx; }
+  // Each node is a process of its own: libcoap's process-wide lock object is swapped with the node (see lockimg.c).
+  static void lock_switch(int from, int to);
   struct AsNode {                        // RAII: make `node` current for socket creation / API calls
     int save;
-    explicit AsNode(int n) : save(simk::K().cur_node) { simk::K().cur_node = n; }
-    ~AsNode() { simk::K().cur_node = save; }
+    explicit AsNode(int n) : save(simk::K().cur_node) { lock_switch(save, n); simk::K().cur_node = n; }
+    ~AsNode() { lock_switch(simk::K().cur_node, save); simk::K().cur_node = save; }
   };
 
   // ---- time and events
@@ -105,6 +107,10 @@ struct World {
   // Run until quiescent (no events, no armed timers) or until `until_ns`. false = aborted.
   bool run(uint64_t until_ns = UINT64_MAX);
   bool run_for_ms(uint64_t ms) { return run(now() + ms * 1000000ull); }
+  // threaded worlds (C13): the scheduler owns the loop. Execute the next queued event if it is due by limit_ns (moving the
+  // clock to it), else move the clock to limit_ns. false = nothing queued and no limit.
+  bool advance_one(uint64_t limit_ns);
+  uint64_t next_event_ns() const { return q.empty() ? UINT64_MAX : q.top().t; }
   void step_node(int n);
   void count(const std::string &k, uint64_t d = 1) { if (res) res->counters[k] += d; }
   void log(const char *fmt, ...) __attribute__((format(printf, 2, 3)));
